@@ -107,7 +107,15 @@ def make_telemetry(rng, lns, residue, bad_prt=0, bad_ict=0, bad_space=0, level=N
         ict10.append([int(round(10 * (base["ict"][c] + drift * i))) + rng.randrange(-5, 6) for c in range(3)])
         space10.append([int(round(10 * base["space"][c])) + rng.randrange(-5, 6) for c in range(3)])
     nonreset = [i for i, n in enumerate(lns) if (n - residue) % 5 != 0]
+    # isolated invalid readings: never half or more of the readings of one thermometer (the cycle is located through the
+    # per-thermometer median of the readings, which the invalid ones must not dominate)
+    per_class = {}
     for i in rng.sample(nonreset, min(bad_prt, max(0, len(nonreset) // 6))):
+        k = (lns[i] - residue) % 5
+        size = sum(1 for n in lns if (n - residue) % 5 == k)
+        if 2 * (per_class.get(k, 0) + 1) >= size:
+            continue
+        per_class[k] = per_class.get(k, 0) + 1
         prt3[i] = rng.choice([0, 12, 90, 147])
     for i in rng.sample(range(L), min(bad_ict, L // 6)):
         ict10[i][0] = rng.choice([0, 50, 990])
